@@ -377,6 +377,12 @@ pub fn run(report: &Report, thorough: bool) -> Evidence {
             }
             let mut oa = o.clone();
             oa.karorder = true;
+            if plan == 2 {
+                // the other-options plan: the context with the option on is a re-configured one for every second setting
+                // (created with every option inverted, old vowel-sign order included), on a used Config object for every fourth
+                oa.via_update = (setting >> 4) % 2 == 1;
+                oa.churn = (setting >> 4) % 4 == 2;
+            }
             let mut a = Ctx::new(&oa).expect("ctx");
             let mut b = Ctx::new(&o).expect("ctx");
             a.with_pre = false;
